@@ -29,7 +29,7 @@ def ob_group(n, ncols, kindset, incname, same, join, ohead, otail, budget_s=120)
     """list(group_notes(stream, **options)) == reference grouping (or both raise OrphanedNoteException)"""
     symx, mods = _setup()
     G = mods["simfile.notes.group"]; N = mods["simfile.notes"]
-    kinds = {5: nc.KINDS5, 6: nc.KINDS6, 7: nc.KINDS7}[kindset]
+    kinds = {3: nc.KINDS3, 5: nc.KINDS5, 6: nc.KINDS6, 7: nc.KINDS7}[kindset]
     include = nc.INCLUDE_SETS[incname]
 
     def run():
@@ -116,6 +116,12 @@ def obligations(tier):
         add_group(3, 6, inc, "JOIN_BY_NOTE_TYPE", True, "KEEP_ORPHAN", "KEEP_ORPHAN")
         add_group(3, 6, inc, "JOIN_ALL", True, "DROP_ORPHAN", "RAISE_EXCEPTION")
     add_group(2, 7, "all", "JOIN_BY_NOTE_TYPE", True, "KEEP_ORPHAN", "DROP_ORPHAN")
+    # five notes over {TAP, HOLD_HEAD, TAIL}: several holds open at once with earlier notes still buffered behind them
+    for oh in nc.POL:
+        for ot in (("KEEP_ORPHAN",) if tier == "quick" else nc.POL):
+            add_group(5, 3, "all", "KEEP_SEPARATE", True, oh, ot)
+    if tier != "quick":
+        add_group(5, 3, "all", "JOIN_ALL", True, "DROP_ORPHAN", "DROP_ORPHAN")
     nct = 3
     for c in ("steps", "jumps", "hands", "mines"):
         obs.append(dict(name=f"count_{c} n={nct}", func="ob_count", args=(nct, 3 if c == "hands" else ncols, c, None), budget_s=b, bounds=f"{nct} notes, 6 kinds"))
@@ -145,7 +151,7 @@ def replay(data):
     a = data["args"]; m = data["model"]
     if data["func"] == "ob_group":
         n, ncols, kindset, incname, same, join, oh, ot = a
-        kinds = {5: nc.KINDS5, 6: nc.KINDS6, 7: nc.KINDS7}[kindset]
+        kinds = {3: nc.KINDS3, 5: nc.KINDS5, 6: nc.KINDS6, 7: nc.KINDS7}[kindset]
         include = nc.INCLUDE_SETS[incname]
         notes = nc.model_notes(m, n, ncols, kinds)
         kw = dict(same_beat_notes=G.SameBeatNotes[same], join_heads_to_tails=join, orphaned_head=G.OrphanedNotes[oh], orphaned_tail=G.OrphanedNotes[ot])
@@ -189,7 +195,7 @@ def replay(data):
 def main(tier):
     from vlib import core
     chk = core.Check(PROP, tier, "harness." + PROP, FUNCTIONS,
-                     bounds={"quick": "streams of 3 notes on 2 columns (hands: 3 columns), 5 note kinds (7 on a slice), every same-beat mode x join x 3x3 orphan policies, 6 include sets on a slice, same_beat_minimum 1..4",
+                     bounds={"quick": "streams of 3 notes on 2 columns (hands: 3 columns), 5 note kinds (7 on a slice), plus streams of 5 notes over {TAP, HOLD_HEAD, TAIL} for the three orphaned-head policies, every same-beat mode x join x 3x3 orphan policies, 6 include sets on a slice, same_beat_minimum 1..4",
                              "thorough": "streams of 4 notes on 2 columns, 5 kinds (7 on the include-set slice), same option space"}[tier],
                      assumptions=ASSUMPTIONS, outside=OUTSIDE)
     chk.add_results(core.run_obligations("harness." + PROP, obligations(tier)))
